@@ -494,6 +494,9 @@ class G:
 
     def mbin(self, depth):
         M = self.M(depth - 1)
+        if mclass(M) == "var" and self.draw(st.integers(0, 2)) == 0:
+            # a matrix *expression* as the operand (its operators are separate code from MatrixVariable's)
+            M = ["mbin", self.draw(st.sampled_from(["+", "*"])), M, ["num", "pyint", self.draw(st.sampled_from([1, 2]))], "right"]
         r, cc = mshape(M, self.env)
         op = self.draw(st.sampled_from(["+", "-", "*", "/", "**"]))
         side = self.draw(st.sampled_from(["right", "right", "left"]))
@@ -502,7 +505,7 @@ class G:
             return ["mbin", "**", M, ["num", "pyint", k], "right"]
         kinds = ["pyint", "pyfloat", "npfloat64"] + (["npint64"] if self.cfg.vec_np_scalar else [])
         ops = [(3, lambda: self.num_operand(kinds))]
-        ops.append((2, lambda: ["arr2", self.matrix_data(r, cc)]))
+        ops.append((5 if (side == "left" and op in ("-", "/")) else 2, lambda: ["arr2", self.matrix_data(r, cc)]))
         if side == "right":
             ops.append((1, lambda: ["list2", self.matrix_data(r, cc)]))
             ops.append((2, lambda: ["M", M]))
